@@ -1,5 +1,6 @@
 import RTV.Drv.Match
 import RTV.Drv.WellFormed
+import RTV.Drv.DefiniteRange
 import RTV.Drv.Unit
 import RTV.Drv.Num
 import RTV.Drv.NumFrac
@@ -28,6 +29,7 @@ def dispatch (line : String) : String :=
   | op :: args =>
     (dispatchMatch op args
       <|> dispatchWF op args
+      <|> dispatchDefRange op args
       <|> dispatchUnit op args
       <|> dispatchResGen op args
       <|> dispatchFactory op args
